@@ -6,6 +6,8 @@ from ..ref_ws import SFrame, PING, PONG
 
 SRV_PING = SFrame(PING, b'sp').encode()
 A1, A2 = 'alpha-alpha-alpha-0123456789', 'alpha-alpha-beta-0123456789-alpha'
+BIG_B = bytes((i * 7 + (i >> 8)) & 0xFF for i in range(3000))
+BIG_T = 'large-text-\u20ac-' * 150
 TOKEN = bytes((i * 149 + 71) % 256 for i in range(24))
 B1, B2 = b'alpha-alpha-alpha-0123456789!', b'beta-0123456789-alpha-alpha'
 
@@ -24,11 +26,14 @@ HARNESSES = {
            'ext': thr.DEFLATE, 'compress': True},
     'H10': {'threads': [[('send_text', A1), ('send_binary', B1)], [('@2', 'send_binary', B2), ('@2', 'send_text', A2)]], 'two': True},
     'H7': {'threads': [[('send_text', A1)], [('send_binary', B2)], [('send_text', A2)]], 'ext': thr.DEFLATE, 'compress': True},
+    # frames large enough for a 16-bit length (and for any "write big payloads separately" shortcut), with and without compression
+    'H12': {'threads': [[('send_binary', BIG_B)], [('send_text', BIG_T), ('send_ping', b'between')]]},
+    'H13': {'threads': [[('send_binary', BIG_B), ('send_text', A1)], [('send_text', BIG_T)]], 'ext': thr.DEFLATE, 'compress': True},
     # an incompressible message from one thread, a message that repeats its content from the other (shared LZ77 history)
     'H11': {'threads': [[('send_binary', TOKEN)], [('send_binary', b'<' + TOKEN + b'|' + TOKEN + b'>')]], 'ext': thr.DEFLATE, 'compress': True},
 }
-BOUNDS = {'quick': {'H1': 1, 'H2': 1, 'H3': 1, 'H4': 1, 'H5': 1, 'H6': 2, 'H7': 1, 'H8': 1, 'H9': 1, 'H10': 1, 'H11': 1},
-          'thorough': {'H1': 2, 'H2': 2, 'H3': 2, 'H4': 2, 'H5': 2, 'H6': 3, 'H7': 2, 'H8': 2, 'H9': 2, 'H10': 2, 'H11': 2}}
+BOUNDS = {'quick': {'H1': 1, 'H2': 1, 'H3': 1, 'H4': 1, 'H5': 1, 'H6': 2, 'H7': 1, 'H8': 1, 'H9': 1, 'H10': 1, 'H11': 1, 'H12': 1, 'H13': 1},
+          'thorough': {'H1': 2, 'H2': 2, 'H3': 2, 'H4': 2, 'H5': 2, 'H6': 3, 'H7': 2, 'H8': 2, 'H9': 2, 'H10': 2, 'H11': 2, 'H12': 2, 'H13': 2}}
 PARTS = 16
 CLOSURE = {'quick': ['H6'], 'thorough': ['H1', 'H2', 'H4', 'H5', 'H6', 'H8']}      # harnesses searched over *all* interleavings (lv.sched_closure)
 
